@@ -11,16 +11,16 @@ import (
 	"github.com/google/martian/v3/zzverif/vf"
 )
 
-type wrapErr struct{ inner error }
+type zzwrapErr struct{ inner error }
 
-func (w *wrapErr) Error() string { return "wrap: " + w.inner.Error() }
-func (w *wrapErr) Unwrap() error { return w.inner }
+func (w *zzwrapErr) Error() string { return "wrap: " + w.inner.Error() }
+func (w *zzwrapErr) Unwrap() error { return w.inner }
 
-type toErr struct{}
+type zztoErr struct{}
 
-func (toErr) Error() string   { return "timeout" }
-func (toErr) Timeout() bool   { return true }
-func (toErr) Temporary() bool { return false }
+func (zztoErr) Error() string   { return "timeout" }
+func (zztoErr) Timeout() bool   { return true }
+func (zztoErr) Temporary() bool { return false }
 
 // VerifT4Lang: language and library semantics the harnesses rely on (array
 // equality, closures over loop variables, errors.As / errors.Is chains).
@@ -80,14 +80,14 @@ func VerifT4Lang() {
 
 	// errors.As: concrete pointer target, interface target, through wrappers
 	base := &net.OpError{Op: "dial", Net: "tcp", Err: errors.New("refused")}
-	var e error = &wrapErr{inner: fmt.Errorf("ctx: %w", base)}
+	var e error = &zzwrapErr{inner: fmt.Errorf("ctx: %w", base)}
 	var op *net.OpError
 	vf.Assert(errors.As(e, &op) && op == base, "errors-as-finds-concrete-type-through-wrappers")
 	var ne net.Error
 	vf.Assert(errors.As(e, &ne), "errors-as-finds-interface")
 	var te interface{ Timeout() bool }
-	vf.Assert(errors.As(error(toErr{}), &te) && te.Timeout(), "errors-as-anonymous-interface")
-	var we *wrapErr
+	vf.Assert(errors.As(error(zztoErr{}), &te) && te.Timeout(), "errors-as-anonymous-interface")
+	var we *zzwrapErr
 	vf.Assert(!errors.As(io.EOF, &we), "errors-as-no-match")
 	vf.Assert(errors.Is(e, base) && !errors.Is(e, io.EOF), "errors-is-through-wrappers")
 	vf.Reach("done")
